@@ -31,12 +31,13 @@ Probs == { [a |-> a, b |-> b, t |-> t, root |-> r, sgn |-> sg, fam |-> fam] :
 Cand == (-2)..(W + 2)
 
 Init == B!Init /\ prob \in {p \in Probs : p.a # p.b}
-Next ==
-  \/ B!Begin(prob.a, prob.b, prob.t, Fn(prob, prob.a), Fn(prob, prob.b)) /\ UNCHANGED prob
-  \/ B!First(LAMBDA x : Fn(prob, x)) /\ UNCHANGED prob
-  \/ B!Iter(LAMBDA x : Fn(prob, x), LAMBDA v : IF AnyS THEN Cand ELSE {v}) /\ UNCHANGED prob
-  \/ B!Exit /\ UNCHANGED prob
-  \/ B!Done /\ UNCHANGED prob
+\* (named disjuncts: TLC then reports how often each was taken - the vacuity guard of the check reads that)
+Begin == B!Begin(prob.a, prob.b, prob.t, Fn(prob, prob.a), Fn(prob, prob.b)) /\ UNCHANGED prob
+First == B!First(LAMBDA x : Fn(prob, x)) /\ UNCHANGED prob
+Iter == B!Iter(LAMBDA x : Fn(prob, x), LAMBDA v : IF AnyS THEN Cand ELSE {v}) /\ UNCHANGED prob
+Exit == B!Exit /\ UNCHANGED prob
+Done == B!Done /\ UNCHANGED prob
+Next == Begin \/ First \/ Iter \/ Exit \/ Done
 Spec == Init /\ [][Next]_vars /\ WF_vars(Next)
 
 RECURSIVE Log2Ceil(_)
